@@ -30,7 +30,9 @@ def norm_real(vals, mode):
 
 def gen_vals(rng):
     n = rng.randint(1, 5)
-    style = rng.choice(["rand", "zero", "zerosum", "equal", "mixed", "single"])
+    style = rng.choice(["rand", "zero", "zerosum", "equal", "mixed", "single", "empty"])
+    if style == "empty":    # what importance_values is before the first estimate exists
+        return style, {}
     keys = ["a", 1, 2.5, "d", 7][:n]
     if style == "zero":
         vs = [Q(0)] * n
@@ -48,6 +50,8 @@ def gen_vals(rng):
 
 def normalize_oracle(vals, mode, out):
     vs = list(vals.values())
+    if not vs:
+        return None if out == {} else f"nothing to normalise but the result is {out}"
     factor = (max(vs) - min(vs)) if mode == "delta" else sum(vs, Q(0))
     if list(out.keys()) != list(vals.keys()):
         return f"keys changed: {list(out.keys())}"
@@ -70,7 +74,7 @@ def type_sweep():
     import numpy as np
     bad = []
     for name, conv in [("int", int), ("float", float), ("np.float64", np.float64), ("np.float32", np.float32), ("np.int64", np.int64)]:
-        cases = [{"a": 0, "b": 0}, {"a": 1, "b": -1}, {"a": 2, "b": 2}, {"a": 3}, {"a": 0}]
+        cases = [{"a": 0, "b": 0}, {"a": 1, "b": -1}, {"a": 2, "b": 2}, {"a": 3}, {"a": 0}, {}]
         if name in ("float", "np.float64"):
             # non-zero but tiny (subnormal) and huge normalisers: the result must still be finite
             cases += [{"a": 1e-310, "b": 2e-310, "c": 0.0}, {"a": 5e-324, "b": 0.0}, {"a": 1e308, "b": 0.5e308}, {"a": -1e-320, "b": 3e-320}]
@@ -90,14 +94,15 @@ def type_sweep():
 
 def run(tier="quick", seed=0, replay=None):
     chk = core.Check("C16", tier, seed, "proof")
-    chk.rule = ("normalisation: dictionaries of 1..5 entries in 6 styles (random, all zero, zero sum, all equal, sign-mixed, single) x "
+    chk.rule = ("normalisation: dictionaries of 0..5 entries in 7 styles (random, all zero, zero sum, all equal, sign-mixed, single, empty) x "
                 "modes sum/delta, exact rationals; numeric-type sweep (int, float, np.float64, np.float32, np.int64). Confidence "
-                "bound: real PFI/SAGE explainers (dynamic, alpha in (0,1]) after 2..6 calls, delta in {1e-3..1}. Variances: every "
+                "bound: real PFI/SAGE explainers (dynamic, alpha in (0,1]) after 0..6 calls, delta in {1e-3..1}. Variances: every "
                 "reachable state of those runs. Non-trivial: >= 2 entries / >= 1 explained call; distinct by hash.")
     chk.trusted = ["Lean 4.33.0 kernel", "axioms propext/Classical.choice/Quot.sound",
                    "hand-written model (normalize, confBound in Model/Explainer.lean) tied by this correspondence",
                    "math.sqrt is a genuine square root (GenuineSqrt hypothesis; instantiated for Real.sqrt)"]
-    chk.assumptions = ["'never NaN or infinite whatever numeric type' is decided by the type sweep on the real code (a field has no NaN)",
+    chk.assumptions = ["the confidence bound is queried in states where a variance is tracked for every feature (before the first estimate `variances` is empty and the formula has no variance to refer to; get_confidence_bound raises KeyError there)",
+                       "'never NaN or infinite whatever numeric type' is decided by the type sweep on the real code (a field has no NaN)",
                        "confidence bound positivity is stated under alpha < 1 or variance > 0 (at alpha = 1, variance = 0, t >= 1 the formula itself is 0)"]
     if replay:
         print(open(replay).read())
@@ -141,8 +146,8 @@ def run(tier="quick", seed=0, replay=None):
         dyn = chk.rng.random() < 0.65      # the bound is also defined (and computed from the CONFIGURED alpha) in the static setting
         cfg = dict(cfg, d=chk.rng.randint(2, 4), dynamic=dyn, alpha=alpha, static_alpha=True, model_kind="scalar", imputer_kind="joint",
                    names_kind=chk.rng.choice(["str", "int", "float", "mixed", "intish", "intish"]), loss_kind="arbitrary", n_inner=1)
-        rig = _expl.run_stream(chk, cfg, chk.rng.randint(2, 6))
-        chk.case({"confidence_bound": True, "config": _expl.cfg_desc(cfg), "first_x": rig.steps[0]["x"]}, nontrivial=True, sample=(i < 1))
+        rig = _expl.run_stream(chk, cfg, chk.rng.randint(0, 6))    # 0 and 1 calls: states without any estimate yet
+        chk.case({"confidence_bound": True, "config": _expl.cfg_desc(cfg), "first_x": rig.steps[0]["x"] if rig.steps else None, "calls": len(rig.steps)}, nontrivial=True, sample=(i < 1))
         chk.stat("explainer_runs")
         ex = rig.ex
         var = ex.variances
@@ -153,13 +158,17 @@ def run(tier="quick", seed=0, replay=None):
         for mode in ("sum", "delta"):
             try:
                 pub = ex.get_normalized_importance_values(mode)
-                f = normalize_oracle(dict(ex.importance_values), mode, pub) if ex.importance_values else None
+                f = normalize_oracle(dict(ex.importance_values), mode, pub)
             except Exception as exn:
                 f = f"raised {core.err_kind(exn)}: {exn}"
             if f:
                 chk.violation(f"normalize-public:{mode}", f"{kind} {_expl.cfg_desc(cfg)}: get_normalized_importance_values({mode!r}): {f}",
                               _expl.replay_payload(rig, cfg, len(rig.steps) - 1))
         prev = None
+        if any(f not in var for f in rig.names):
+            # before the first estimate no variance is tracked, so the formula of the property has nothing to refer to
+            chk.stat("bound_skipped_no_variance_tracked_yet")
+            continue
         for delta in (1e-3, 0.05, 0.5, 1.0):
             try:
                 cb = ex.get_confidence_bound(delta)
